@@ -246,3 +246,126 @@ def observe_hist(case):
         o["memo"] = n in reg._unit_object_cache
         ev.append({"pk": c["pk"], "pi": c["pi"], "b": c["b"], "o": o})
     return {"ev": ev}
+
+
+# ---------------------------------------------------------------------------------------------------------------
+# edited custom registry (NamesEdit.tla)
+EDIT_PROBES = ["pc", "parsec", "kpc", "kiloparsec", "Kiloparsec", "Mpc", "ft", "foot", "kft", "foo", "kfoo", "Mfoo"]
+EDIT_DERIVED = ["kpc", "Mpc", "kft", "kfoo", "Mfoo"]
+
+
+def _edit_den(u):
+    """project a length unit onto [mantissa name, decimal exponent]: Dpc / Dft = the default scale of pc / ft, 2 4 7 = metres"""
+    U = _U
+    if "edit_mant" not in U:
+        from unyt import dimensions
+
+        U["edit_len"] = dimensions.length
+        U["edit_mant"] = [("Dpc", Fraction(float(U["lut"]["pc"][0]))), ("Dft", Fraction(float(U["lut"]["ft"][0]))), ("2", Fraction(2)), ("4", Fraction(4)), ("7", Fraction(7))]
+    try:
+        bv = float(u.base_value)
+        if u.dimensions != U["edit_len"] or float(u.base_offset) != 0.0 or not (bv > 0) or math.isinf(bv):
+            return []
+    except Exception:  # noqa: BLE001
+        return []
+    f = Fraction(bv)
+    out = []
+    for name, m in U["edit_mant"]:
+        ratio = f / m
+        e = round(math.log10(float(ratio)))
+        for ee in (e - 1, e, e + 1):
+            t = Fraction(10) ** ee
+            if -12 <= ee <= 30 and abs(ratio - t) <= TOL * t:
+                out.append([name, int(ee)])
+    return out
+
+
+def _edit_unit(f):
+    try:
+        u = f()
+    except Exception as e:  # noqa: BLE001
+        return {"ok": False, "den": [], "exc": type(e).__name__}
+    if not isinstance(u, _U["Unit"]):
+        return {"ok": False, "den": [], "exc": "not a Unit"}
+    return {"ok": True, "den": _edit_den(u), "exc": ""}
+
+
+def _edit_rows(reg):
+    return [k in reg.lut for k in EDIT_DERIVED]
+
+
+def _edit_ns(reg):
+    ns = {}
+    try:
+        _U["add_symbols"](ns, reg)
+    except Exception as e:  # noqa: BLE001
+        return False, type(e).__name__, [{"present": False, "ok": False, "den": []} for _ in EDIT_PROBES]
+    out = []
+    for p in EDIT_PROBES:
+        v = ns.get(p)
+        if v is None:
+            out.append({"present": False, "ok": False, "den": []})
+        else:
+            o = _edit_unit(lambda: v)
+            out.append({"present": True, "ok": o["ok"], "den": o["den"]})
+    return True, "", out
+
+
+def observe_edit(case):
+    """case = {"h": [{op, k, m, pfx, p}, ...]} on one fresh UnitRegistry; at the end every probe string is resolved from
+    the same state (table, memo restored after each) and a fresh namespace is built."""
+    U = _U
+    from unyt import dimensions
+
+    reg = U["UnitRegistry"]()
+    ev = []
+    for e in case["h"]:
+        rec = dict(e)
+        rec["rowsbefore"] = _edit_rows(reg)
+        rec["ns"] = []
+        op = e["op"]
+        try:
+            if op == "add":
+                reg.add(e["k"], float(e["m"]), dimensions.length, prefixable=bool(e["pfx"]))
+                obs = {"k": "ok", "ok": True, "den": []}
+            elif op == "remove":
+                reg.remove(e["k"])
+                obs = {"k": "ok", "ok": True, "den": []}
+            elif op == "modify":
+                reg.modify(e["k"], float(e["m"]))
+                obs = {"k": "ok", "ok": True, "den": []}
+            elif op == "unit":
+                s = EDIT_PROBES[e["p"] - 1]
+                o = _edit_unit(lambda: U["Unit"](s, registry=reg))
+                obs = {"k": "unit" if o["ok"] else "raise", "ok": o["ok"], "den": o["den"], "exc": o["exc"]}
+            elif op == "addsymbols":
+                ok, exc, nsobs = _edit_ns(reg)
+                obs = {"k": "ns" if ok else "raise", "ok": ok, "den": [], "exc": exc}
+                rec["ns"] = nsobs
+            else:
+                raise ValueError(op)
+        except Exception as ex:  # noqa: BLE001
+            obs = {"k": "raise", "ok": False, "den": [], "exc": type(ex).__name__}
+        rec["obs"] = obs
+        rec["rows"] = _edit_rows(reg)
+        ev.append(rec)
+    reg.unit_system_id  # memoise once
+    snap = (dict(reg.lut), dict(reg._unit_object_cache), reg._unit_system_id)
+
+    def restore():
+        reg.lut.clear()
+        reg.lut.update(snap[0])
+        reg._unit_object_cache.clear()
+        reg._unit_object_cache.update(snap[1])
+        reg._unit_system_id = snap[2]
+
+    final = {"rows": _edit_rows(reg), "probes": []}
+    for s in EDIT_PROBES:
+        o = _edit_unit(lambda: U["Unit"](s, registry=reg))
+        final["probes"].append({"ok": o["ok"], "den": o["den"], "exc": o["exc"]})
+        restore()
+    ok, exc, nsobs = _edit_ns(reg)
+    final["nsok"] = ok
+    final["nsexc"] = exc
+    final["ns"] = nsobs
+    return {"ev": ev, "final": final}
